@@ -31,7 +31,9 @@ ASSUMPTIONS = [
     "fixed_code of the theorems; the other branch of sync_impl is in the model (has_info) and C08_mixed_info_deadlocks shows "
     "that a None on one thread only would deadlock the round",
     "the number of rounds and the sample size of each round are inputs of the model (decided by the sampling loop, properties C03/C04/C19)",
-    "the guard's waits while unwinding are not logged by the hooks: the replay inserts them as silent steps",
+    "every barrier wait is logged, the guard's waits while unwinding included (hook H5, a = 3): the replay matches every model step "
+    "that touches the barrier one to one with a logged event in the global order; silent steps are only the end of the guard's "
+    "drop, the return from record_sample, join and start of a round",
     "log_sb (the monitor evaluated on observed logs) is proved to accept every model execution for a fixed sample size per run (C08_log_sb_model)",
 ]
 TRUSTED = [
